@@ -130,7 +130,24 @@ fn tail(s: &str) -> String {
 }
 
 fn conf_case(proto: Proto) -> BoxedStrategy<ConfCase> {
-  (rt_case(proto, Layer::Core), vec(any::<u8>(), 32)).prop_map(|(rt, wire_nonce)| ConfCase { rt, wire_nonce }).boxed()
+  // wire nonces: random, and ones whose trailing bytes are 0xff so that a block counter derived from them
+  // carries across the 64-bit (and 32-bit) boundary within a message of a few blocks
+  let wire = prop_oneof![
+    6 => vec(any::<u8>(), 32),
+    2 => (vec(any::<u8>(), 32), 1usize..=16, 0u8..4).prop_map(|(mut n, k, d)| {
+      for b in n[32 - k..].iter_mut() {
+        *b = 0xff;
+      }
+      n[31] = 0xff - d;
+      // v2's wire nonce is the first 24 bytes
+      for b in n[24 - k.min(8)..24].iter_mut() {
+        *b = 0xff;
+      }
+      n
+    }),
+    1 => Just(vec![0xffu8; 32]),
+  ];
+  (rt_case(proto, Layer::Core), wire).prop_map(|(rt, wire_nonce)| ConfCase { rt, wire_nonce }).boxed()
 }
 
 fn all_subs() -> Vec<Conformance> {
